@@ -29,9 +29,24 @@ class FakePath:
     def open(self, mode='rb'):
         if isinstance(self.spec, BaseException):
             raise self.spec
-        f = io.BytesIO(self.spec)
+        if isinstance(self.spec, tuple) and self.spec[0] == 'eio':
+            f = FailingSource(self.spec[1], self.spec[2])       # reads fine, then raises EIO
+        else:
+            f = io.BytesIO(self.spec)
         self.opened.append(f)
         return f
+
+
+class FailingSource(io.BytesIO):
+    """a source whose read raises OSError(EIO) after `good_reads` successful reads (a medium that goes bad mid-transfer)"""
+    def __init__(self, data, good_reads):
+        super().__init__(data)
+        self.good_reads = good_reads
+    def read(self, *a):
+        if self.good_reads <= 0:
+            raise OSError(5, 'Input/output error')
+        self.good_reads -= 1
+        return super().read(*a)
 
 
 EXC = {1: FileNotFoundError(2, 'No such file'), 2: PermissionError(13, 'denied'),
